@@ -1,4 +1,5 @@
 mod util;
+mod backend;
 mod c19;
 
 fn main() {
